@@ -16,6 +16,15 @@ node_length_attr (former finding C11-kpathcover-node-length-default: attribute-l
 coverage_length constraints); its input stays as a regression case (COVER_LENGTH_WITNESS: three-way K2 plus an end-to-end
 check that k=1 is solved and MinPathCover answers 1 path), Lean: kcover_node_mode_length_regression,
 kcover_former_reading_differs, kcover_former_lp_eq.
+The four cyclic k-classes (kFlowDecompCycles, kPathCoverCycles, kLeastAbsErrorsCycles, kMinPathErrorCycles): model
+FP/Model/NodeExpandModesCyc.lean, driver ops lp.kfdcnode / lp.kcovercnode / lp.klaecnode / lp.kmpecnode, the same three-way
+K2 comparison (suites K2.<class>_node, safety optimisations off), Lean: node_mode_is_edge_mode_on_expansion_kcoverc
+(unconditional), _kfdc (hypothesis hcap), _klaec / _kmpec (hypothesis hzero), kfdc_caps_equal_iff,
+node_mode_walks_condense_*. The hypotheses are about original edges that carry an attribute named like the node flow
+attribute: NodeExpandedDiGraph copies it onto (u.1, v.0) and the cyclic constructors read the repetition caps off the
+expanded graph (finding C11-cyclic-node-mode-cap-from-edge-attribute: CAP_WITNESSES, replayed end to end with an
+independent evaluation of the returned walks; Lean: kfdc_node_mode_cap_from_edge_attribute_differs,
+errc_node_mode_cap_from_edge_attribute_differs).
 Oracle (property text, K5): for every class with a node mode, solve in node mode and solve the explicit expansion in
 edge mode: same solved status, same objective, returned routes use original node names and are walks of the original
 graph.
@@ -37,7 +46,14 @@ THEOREMS = ["FP.Props.C11." + t for t in [
     "node_mode_is_edge_mode_on_expansion_kcover", "kcover_lengths_agree_on_node_constraints",
     "kcover_lengths_eq_of_all_edges", "node_branch_ignore_and_values", "kcover_node_mode_length_regression",
     "kcover_former_reading_differs", "kcover_former_lp_eq",
-    "dotted_names_condense_witness", "first_constraint_empty_witness"]]
+    "dotted_names_condense_witness", "first_constraint_empty_witness",
+    # the four cyclic k-classes
+    "node_mode_is_edge_mode_on_expansion_kcoverc", "node_mode_is_edge_mode_on_expansion_kfdc",
+    "node_mode_is_edge_mode_on_expansion_kfdc_of_no_edge_attr", "kfdc_caps_equal_iff", "kfdc_node_branch_input",
+    "node_mode_is_edge_mode_on_expansion_klaec", "node_mode_is_edge_mode_on_expansion_kmpec",
+    "cyclic_node_branch_attribute", "node_mode_walks_condense_kfdc", "node_mode_walks_condense_kcoverc",
+    "node_mode_walks_condense_klaec", "node_mode_walks_condense_kmpec",
+    "kfdc_node_mode_cap_from_edge_attribute_differs", "errc_node_mode_cap_from_edge_attribute_differs"]]
 IMPORTS = ["FP.Props.C11"]
 RULE = ("node-weighted digraphs on 1-7 nodes: random DAGs and digraphs with self-loops / 2-cycles / nested cycles, isolated "
         "nodes and single-node graphs, edges inserted in random order, names drawn from a hostile pool ('a.0', 'a', 'a.1', "
@@ -45,7 +61,12 @@ RULE = ("node-weighted digraphs on 1-7 nodes: random DAGs and digraphs with self
         "original edges sometimes carry an attribute of the same name; node- and edge-level constraints, ignored nodes, "
         "starts / ends incl. unknown names. K1 non-trivial: distinct graph with at least one edge. K2 non-trivial: distinct "
         "configuration whose LP has at least one non-ignored expanded edge. K5 non-trivial: distinct (class, instance) "
-        "solved by at least one of the two sides.")
+        "solved by at least one of the two sides. K2 of the cyclic classes: digraphs with cycles on 2-7 nodes (self-loops, 2-cycles, "
+        "nested cycles, parallel SCC exits / entries, several sources / sinks, or hostile names), node values from walk "
+        "superpositions or arbitrary (zeros, fractional, int type over float data, rarely negative), nodes lacking the attribute, "
+        "original edges carrying an attribute of the same name (12 %), ignored nodes, node- / edge-form subset constraints with "
+        "coverage 1, 3/4, 1/2, 1/4, additional starts / ends (sometimes none although needed), node-keyed error_scaling, "
+        "given_weights, k = None; non-trivial: distinct accepted configuration with at least one non-ignored valued node.")
 MODEL_SCOPE = ("modelled: NodeExpandedDiGraph.__init__ (graph, flow / length attributes, _edges_to_ignore, global source/sink "
                "block), get_expanded_edge, get_expanded_subpath_constraints (node and edge form), "
                "get_expanded_additional_starts/ends, get_condensed_paths, get_condensed_graph (flow attribute), node branch "
@@ -54,8 +75,18 @@ MODEL_SCOPE = ("modelled: NodeExpandedDiGraph.__init__ (graph, flow / length att
                "error_scaling, dummy flow attribute and copied length attribute of kPathCover, encode_edge_position of "
                "kMinPathError; without solution_weights_superset and safety optimisations). Not modelled: _try_filling_in_missing_flow_values (networkx min-cost "
                "flow), attributes other than the flow / length attribute, constraint lists mixing nodes and edges, the node "
-               "branches of the remaining classes (Min* wrappers, MinErrorFlow, the cyclic classes: covered end-to-end by the "
-               "K5 oracle only).")
+               "branches of the remaining classes (Min* wrappers, MinErrorFlow: covered end-to-end by the K5 oracle only). "
+               "Cyclic k-classes (FP/Model/NodeExpandModesCyc.lean): node branches of kFlowDecompCycles / kPathCoverCycles / "
+               "kLeastAbsErrorsCycles / kMinPathErrorCycles.__init__ up to the LP: NodeExpandedDiGraph(G, node_flow_attr) without "
+               "length attribute / fill-in, dummy attribute of the cover class, translation of subset constraints, additional "
+               "starts / ends, ignored nodes (list(set(...))), error_scaling; then the edge-level rest on the expansion: "
+               "stDiGraph source / sink requirement, k, subset-constraint checks, negative / all-ignored checks, w_max, and the "
+               "repetition caps as computed on the expanded graph from the copied attributes (edge_upper_bounds_dict, "
+               "compute_edge_max_reachable_value, |E|*|V|), given_weights. Not modelled there: safety optimisations, "
+               "trusted_edges_for_safety, elements_to_ignore_percentile / trusted_edges_for_safety_percentile, k = None (the "
+               "width is taken from the real object); configurations on which both real constructors fail alike inside the "
+               "solver wrapper (a negative value on an ignored node inside a cycle becomes a column upper bound below 0) are "
+               "counted but not compared.")
 TRUSTED = ["python str slicing s[-2:], s[:-2] and concatenation = List Char drop/take/append as transcribed in "
            "FP/Model/NodeExpand.lean", "HiGHS returns the optimum of the small instances of the K5 oracle within 30 s"]
 ASSUMPTIONS = ["node names are python str (the class rejects anything else)",
@@ -726,6 +757,337 @@ def run_k2m(ctx, rng, n):
                 ctx.rep.sample({"k2m_case": k2})
 
 
+# ----------------------------------------------------------------------------- K2 (three-way, the four cyclic k-classes)
+
+K2C = {"kFlowDecompCycles": "lp.kfdcnode", "kPathCoverCycles": "lp.kcovercnode",
+       "kLeastAbsErrorsCycles": "lp.klaecnode", "kMinPathErrorCycles": "lp.kmpecnode"}
+WALK_SAFETY_OFF = {"optimize_with_safe_sequences": False, "optimize_with_safety_as_subset_constraints": False,
+                   "optimize_with_max_safe_antichain_as_subset_constraints": False}
+CAP_DIAGNOSIS = "repetition-cap-from-edge-attribute"
+
+
+def _numc(wint):
+    """values as the cyclic adapters hand them over: ints for the int weight type unless the value is fractional"""
+    def f(q):
+        fr = frac(q)
+        return int(fr) if wint and fr.denominator == 1 else float(fr)
+    return f
+
+
+def gen_k2c(rng, cls):
+    """a node-weighted digraph with cycles (self-loops, 2-cycles, nested cycles, parallel SCC exits / entries, several
+    sources / sinks; shapes of gen.digraph_cyc or hostile names of gen_graph), node values that are a superposition of
+    weighted walks or arbitrary (zeros, fractional values, now and then a negative one), nodes lacking the attribute,
+    original edges carrying an attribute of the same name, ignored nodes, node- / edge-form subset constraints with a
+    coverage fraction, additional starts / ends (sometimes missing although the graph has no source / sink: rejected),
+    node-keyed error_scaling, given_weights (kFlowDecompCycles), k = None (the two error classes); safety off"""
+    wint = rng.random() < 0.55
+    if rng.random() < 0.6:
+        nodes, edges, starts, ends, tags = gen.digraph_cyc(rng, max_nodes=5, valid=rng.random() < 0.93)
+        edges = [tuple(e) for e in edges]
+    else:
+        g = gen_graph(rng, maxn=5, cyclic=True, hostile=rng.random() < 0.6, want_edges=rng.random() < 0.9, blanks=False)
+        nodes, edges = g["nodes"], [tuple(e) for e in g["edges"]]
+        indeg = {v: 0 for v in nodes}; outdeg = dict(indeg)
+        for u, v in edges:
+            outdeg[u] += 1; indeg[v] += 1
+        starts = [v for v in nodes if rng.random() < 0.15]
+        ends = [v for v in nodes if rng.random() < 0.15]
+        if rng.random() < 0.93:
+            if not starts and not any(indeg[v] == 0 for v in nodes):
+                starts = [rng.choice(nodes)]
+            if not ends and not any(outdeg[v] == 0 for v in nodes):
+                ends = [rng.choice(nodes)]
+        tags = ["hostile_names"]
+    pool = (1, 2, 3) if wint else _walk_dyadic()
+    r = rng.random()
+    if r < 0.55:
+        _, walks, ws = gen.walk_flow_cyc(rng, nodes, edges, starts, ends, weights=pool, wtype=int if wint else float)
+        val = {v: 0 for v in nodes}
+        for w, q in zip(walks, ws):
+            for x in [w[0][0]] + [e[1] for e in w]:
+                val[x] += q
+        if rng.random() < 0.4:
+            v = rng.choice(nodes); val[v] = max(0, val[v] + rng.choice([-2, -1, 1, 3]))
+    else:
+        vp = (0, 0, 1, 2, 3, 5, 8) if (wint or rng.random() < 0.3) else (0, 0.5, 0.75, 1.5, 2.0, 2.25, 4.0, 6.5)
+        val = {v: rng.choice(vp) for v in nodes}
+    if wint and rng.random() < 0.08:
+        v = rng.choice(nodes); val[v] = val[v] + 0.5          # int weight type over float data: w_max = k * int(max)
+    if rng.random() < 0.02:
+        val[rng.choice(nodes)] = -1                           # rejected by both branches
+    pa = 1.0 if rng.random() < 0.5 else 0.8
+    node_flow = {v: val[v] for v in nodes if rng.random() < pa}
+    edge_flow = []
+    if rng.random() < 0.12:                                   # original edges carrying an attribute of the same name
+        edge_flow = [[u, v, rng.choice([0, 1, 4, 9] if wint else [0, 0.5, 4.0, 9.0])] for (u, v) in edges if rng.random() < 0.6]
+    cfg = {"nodes": list(nodes), "edges": [list(e) for e in edges], "node_flow": node_flow, "edge_flow": edge_flow,
+           "node_len": None, "edge_len": [], "cyclic": True, "graph_tags": list(tags)}
+    kind, cons = gen_constraints(rng, cfg, allow_bad=rng.random() < 0.25) if rng.random() < 0.5 else ("nodes", [])
+    bad = ["nosuch"] if rng.random() < 0.03 else []
+    k2 = {"class": cls, "graph": cfg, "weight_type": "int" if wint else "float",
+          "k": rng.randint(1, 3) if rng.random() < 0.97 else 0,
+          "constraints_kind": kind, "constraints": cons, "coverage": rng.choice(["1", "1", "1/4", "1/2", "3/4"]),
+          "ignore": ([v for v in nodes if rng.random() < 0.2] if rng.random() < 0.35 else []) + (bad if rng.random() < 0.3 else []),
+          "starts": list(starts) + (bad if rng.random() < 0.3 else []), "ends": list(ends),
+          "scaling": {}, "given_weights": None, "allow_empty": rng.random() < 0.35}
+    if cls in ("kLeastAbsErrorsCycles", "kMinPathErrorCycles"):
+        if rng.random() < 0.45:
+            k2["scaling"] = {v: rng.choice(["0", "1/4", "1/2", "1"]) for v in nodes + bad if rng.random() < 0.4}
+            if rng.random() < 0.04:
+                k2["scaling"][nodes[0]] = "2"                 # outside [0, 1]: rejected by both branches
+        if rng.random() < 0.1:
+            k2["k"] = None                                    # the class takes the width of the expansion
+    if cls == "kFlowDecompCycles" and rng.random() < 0.25:
+        vals = sorted({frac(q) for q in node_flow.values() if q > 0} | {frac(1), frac(2)})
+        k2["given_weights"] = [qstr(rng.choice(vals)) for _ in range(rng.randint(1, max(1, k2["k"])))]
+        if rng.random() < 0.05:
+            k2["given_weights"] = k2["given_weights"] * 4     # more weights than k: rejected
+    return k2
+
+
+def _walk_dyadic():
+    return (0.5, 1.0, 1.5, 2.25, 4.0)
+
+
+def k2c_build(fp, k2, node_mode, drop_edge_attr=False):
+    """the real class in node mode on the caller's graph, or in edge mode on an expansion built here from the property text"""
+    cls = k2["class"]
+    cfg = k2["graph"] if not drop_edge_attr else dict(k2["graph"], edge_flow=[])
+    wint = k2["weight_type"] == "int"
+    numc = _numc(wint)
+    kind, cons = k2["constraints_kind"], k2["constraints"]
+    scaling = {v: float(frac(q)) for v, q in k2["scaling"].items()}
+    opts = dict(WALK_SAFETY_OFF, allow_empty_walks=bool(k2["allow_empty"]))
+    if k2.get("given_weights") is not None:
+        opts["given_weights"] = [numc(q) for q in k2["given_weights"]]
+    kw = dict(k=k2["k"], subset_constraints_coverage=float(frac(k2["coverage"])), optimization_options=opts)
+    if cls != "kPathCoverCycles":
+        kw.update(flow_attr=ATTR, weight_type=int if wint else float)
+    if node_mode:
+        G = build_G(cfg, numtype=numc)
+        kw.update(G=G, subset_constraints=[[tuple(x) for x in c] for c in cons] if kind == "edges" else [list(c) for c in cons],
+                  elements_to_ignore=list(k2["ignore"]), additional_starts=list(k2["starts"]), additional_ends=list(k2["ends"]))
+        if cls == "kPathCoverCycles":
+            kw["cover_type"] = "node"
+        else:
+            kw["flow_attr_origin"] = "node"
+            if cls != "kFlowDecompCycles":
+                kw["error_scaling"] = dict(scaling)
+    else:
+        X, ign = explicit_expansion(cfg, numtype=numc)
+        if cls == "kPathCoverCycles":        # nothing carries a value: every node is to be covered
+            ign = [(u + ".1", v + ".0") for u, v in cfg["edges"]]
+        for v in list(k2["ignore"]) + list(k2["starts"]) + list(k2["ends"]) + list(k2["scaling"]):
+            if v not in cfg["nodes"]:
+                raise ValueError("node not in the original graph")
+        for c in cons:
+            for x in c:
+                if (kind == "nodes" and x not in cfg["nodes"]) or (kind == "edges" and list(x) not in cfg["edges"]):
+                    raise ValueError("constraint element not in the original graph")
+        if cons and not cons[0]:
+            raise IndexError("first constraint empty")
+        kw.update(G=X, subset_constraints=x_constraints(kind, cons), elements_to_ignore=ign + [x_node(v) for v in k2["ignore"]],
+                  additional_starts=[v + ".0" for v in k2["starts"]], additional_ends=[v + ".1" for v in k2["ends"]])
+        if cls == "kPathCoverCycles":
+            kw["cover_type"] = "edge"
+        else:
+            kw["flow_attr_origin"] = "edge"
+            if cls != "kFlowDecompCycles":
+                kw["error_scaling"] = {x_node(v): q for v, q in scaling.items()}
+    m = getattr(fp, cls)(**kw)
+    if m.edges_set_to_zero or m.edges_set_to_one:
+        raise RuntimeError("edge variables fixed by safety (not modelled)")
+    return m
+
+
+def k2c_case(ctx, k2):
+    """real node branch | real edge branch on an expansion built here from the property text | Lean node branch"""
+    fp = ctx.fp
+    cls = k2["class"]
+    cfg = k2["graph"]
+    kind, cons = k2["constraints_kind"], k2["constraints"]
+    inp = dict(k2)
+    resolved = {}
+
+    def side(node_mode, drop=False):
+        try:
+            m = k2c_build(fp, k2, node_mode, drop_edge_attr=drop)
+            resolved.setdefault("k", m.k)
+            caps = {e: float(m.edge_upper_bounds[e]) for e in m.G.edges() if m.G.is_scc_edge(*e)}
+            return ("ok", dump_of(m), caps)
+        except (ValueError, IndexError) as e:
+            return ("raises", type(e).__name__)
+        except Exception as e:
+            return ("crash", f"{type(e).__name__}: {str(e)[:100]}")
+
+    a, b = side(True), side(False)
+    suite = "K2." + cls + "_node"
+    kk = k2["k"] if k2["k"] is not None else resolved.get("k", 1)
+    req = dict(graph_request(cfg), op=K2C[cls], ignore=k2["ignore"], constraints_kind=kind, constraints=cons,
+               weight_type=k2["weight_type"], k=kk, coverage=k2["coverage"], coverage_length=None,
+               allow_empty=bool(k2["allow_empty"]), starts=k2["starts"], ends=k2["ends"],
+               scaling=[[v, q] for v, q in k2["scaling"].items()], given_weights=k2.get("given_weights"))
+    m = ctx.driver.call(req)
+    c = ("raises", m["raises"]) if "raises" in m else ("ok", lpdump.from_driver(m["ok"]))
+    if cls == "kPathCoverCycles":
+        active = len([v for v in cfg["nodes"] if v not in k2["ignore"]])
+    else:
+        active = len([v for v in cfg["nodes"] if v in cfg["node_flow"] and v not in k2["ignore"]])
+    hist = [f"node:{a[0]}", f"edge:{b[0]}", f"lean:{c[0]}", kind if cons else "nocons",
+            "starts/ends" if k2["starts"] or k2["ends"] else "nostarts", "scaling" if k2["scaling"] else "noscaling",
+            "given" if k2.get("given_weights") else "free", "k=None" if k2["k"] is None else "k_given",
+            "weight_" + k2["weight_type"], "edge_attr_same_name" if cfg["edge_flow"] else "no_edge_attr",
+            "self_loop" if any(u == v for u, v in cfg["edges"]) else "no_self_loop"]
+    if a[0] == "ok":
+        caps = a[2]
+        hist += ["has_scc_edge" if caps else "no_scc_edge"]
+        if any(v == 0 for v in caps.values()):
+            hist.append("scc_edge_cap=0")
+        if any(v > 1 for v in caps.values()):
+            hist.append("scc_edge_cap>1")
+        if any(e[0][:-2] == e[1][:-2] and e[0].endswith(".1") for e in caps):
+            hist.append("self_loop_copy_is_scc_edge")
+    crashed = a[0] == "crash" or b[0] == "crash"
+    tie_ok = crashed or not (a[0] != c[0] or (a[0] == "ok" and a[1] != c[1]))
+    exp_differs = (not crashed) and ((a[0] == "ok") != (b[0] == "ok") or (a[0] == "ok" and a[1] != b[1]))
+    payload, sig = None, "other"
+    if exp_differs:
+        payload = {"class": cls, "stage": "lp", "case": inp}
+        if cfg["edge_flow"] and a[0] == "ok" and b[0] == "ok":
+            # diagnosis: the same call with the same-named attribute removed from the original edges
+            a2 = side(True, drop=True)
+            if a2[0] == "ok" and a2[1] == b[1]:
+                payload["diagnosis"] = CAP_DIAGNOSIS
+                payload["caps_node_mode"] = sorted([list(e), v] for e, v in a[2].items() if b[2].get(e) != v)
+                payload["caps_expansion"] = sorted([list(e), v] for e, v in b[2].items() if a[2].get(e) != v)
+                sig = CAP_DIAGNOSIS
+    hist += ["crash" if crashed else "lean=node" if tie_ok else "lean!=node",
+             "crash" if crashed else "expansion=node" if not exp_differs else "expansion!=node:" + sig]
+    ctx.rep.count(suite, inp, nontrivial=(a[0] == "ok" and active > 0), hist=hist)
+    ctx.rep.cov["traces_validated_against_impl"] += 1
+    if crashed:
+        if a[0] == "crash" and b[0] == "ok" and "not modelled" not in a[1]:
+            ctx.rep.cov["oracle_evaluations"] += 1
+            report(ctx, f"{cls} in node mode raises {a[1]} where the explicit expansion in edge mode builds its model",
+                   {"class": cls, "stage": "constructor", "error": a[1], "case": inp}, site=cls + ".node_mode",
+                   sig="raises " + a[1].split(":")[0])
+        return
+    if not tie_ok:
+        ctx.disagree(suite, inp, a[0] if a[0] != "ok" else lpdump.diff(a[1], c[1]), c[0], note="real node mode vs Lean")
+    # property oracle: the LP of the node branch is the LP of the edge branch on the explicit expansion
+    ctx.rep.cov["oracle_evaluations"] += 1
+    if exp_differs:
+        d = a[0] + "/" + b[0] if a[0] != "ok" or b[0] != "ok" else json.dumps(lpdump.diff(a[1], b[1]))[:600]
+        report(ctx, f"{cls}: the model built in node mode differs from the model built in edge mode on the explicit "
+                    f"expansion of the property text: {d}", payload, site=cls + ".node_mode.lp", sig=sig)
+
+
+def run_k2c(ctx, rng, n):
+    for cls in K2C:
+        for it in range(n):
+            k2 = gen_k2c(rng, cls)
+            k2c_case(ctx, k2)
+            if it == 0:
+                ctx.rep.sample({"k2c_case": k2})
+
+
+def _loop_cfg(vals, loop_attr):
+    """s -> a -> t with the self-loop a -> a; the self-loop carries an edge attribute named like the flow attribute"""
+    return {"nodes": ["s", "a", "t"], "edges": [["s", "a"], ["a", "a"], ["a", "t"]], "node_flow": dict(vals),
+            "edge_flow": [["a", "a", loop_attr]], "node_len": None, "edge_len": [], "cyclic": True}
+
+
+def _cap_inst(vals, loop_attr, wt):
+    return {"graph": _loop_cfg(vals, loop_attr), "k": 1, "ignore": [], "constraints": [], "starts": [], "ends": [],
+            "error_scaling": {}, "weight_type": wt}
+
+
+# FP.Props.C11.exLoopCap / kfdc_node_mode_cap_from_edge_attribute_differs (finding C11-cyclic-node-mode-cap-from-edge-attribute)
+CAP_WITNESSES = [
+    ("kFlowDecompCycles", _cap_inst({"s": 1, "a": 2, "t": 1}, 0, "int")),
+    ("kLeastAbsErrorsCycles", _cap_inst({"s": 0.5, "a": 1.5, "t": 0.5}, 9.0, "float")),
+    ("kMinPathErrorCycles", _cap_inst({"s": 0.5, "a": 1.5, "t": 0.5}, 9.0, "float")),
+]
+
+
+def _strip(route):
+    """expanded names v.0, v.1, ... -> v, ... (harness-side, independent of get_condensed_paths)"""
+    return [x[:-2] for x in route[::2]] if route and all(x[-2:] in (".0", ".1") for x in route) else list(route)
+
+
+def node_residuals(cfg, ignore, routes, weights):
+    """independent evaluation on the caller's node-weighted graph: every route must be a walk from a node without
+    in-edges to a node without out-edges; returns {v: value(v) - sum_i w_i * visits_i(v)} over the nodes that carry the
+    attribute and are not ignored, or None if some route is not such a walk"""
+    edges = {tuple(e) for e in cfg["edges"]}
+    has_in = {v for _, v in edges}; has_out = {u for u, _ in edges}
+    res = {v: Fraction(q).limit_denominator(1000) for v, q in cfg["node_flow"].items() if v not in ignore}
+    for r, w in zip(routes, weights):
+        if not r or r[0] in has_in or r[-1] in has_out or any((u, v) not in edges for u, v in zip(r[:-1], r[1:])):
+            return None
+        for v in r:
+            if v in res:
+                res[v] -= Fraction(w).limit_denominator(1000)
+    return res
+
+
+def brute_single_walk(cfg, ignore, maxlen=6):
+    """brute force for k = 1: all walks with at most `maxlen` nodes from a node without in-edges to a node without
+    out-edges of the caller's graph, every node value as candidate weight; returns the (walk, weight) pairs that explain
+    every non-ignored node value exactly"""
+    edges = {tuple(e) for e in cfg["edges"]}
+    succ = {v: [y for (x, y) in edges if x == v] for v in cfg["nodes"]}
+    has_in = {v for _, v in edges}; has_out = {u for u, _ in edges}
+    found = []
+    stack = [[v] for v in cfg["nodes"] if v not in has_in]
+    while stack:
+        w = stack.pop()
+        if w[-1] not in has_out:
+            for q in sorted({x for x in cfg["node_flow"].values() if x > 0}):
+                res = node_residuals(cfg, ignore, [w], [q])
+                if res is not None and all(x == 0 for x in res.values()):
+                    found.append((w, q))
+        if len(w) < maxlen:
+            stack += [w + [y] for y in succ[w[-1]]]
+    return found
+
+
+def cap_witnesses(ctx):
+    """the inputs of the finding, end to end on the real classes (node mode vs edge mode on the explicit expansion), with
+    an independent evaluation of the returned walks on the caller's node-weighted graph"""
+    for name, inst in CAP_WITNESSES:
+        inst = copy.deepcopy(inst)
+        a, b, comp = k5_case(ctx, name, inst, suite="witness.cap")
+        ctx.rep.cov["oracle_evaluations"] += 1
+        cfg = inst["graph"]
+        cert = {}
+        for tag, side in (("node_mode", a), ("expansion", b)):
+            if side.get("solved") and "weights" in side:
+                res = node_residuals(cfg, inst["ignore"], [_strip(r) for r in side["routes"]], side["weights"])
+                cert[tag] = None if res is None else float(sum(abs(x) for x in res.values()))
+        # what the independent evaluation must confirm when the two sides differ: the walks of the solved side(s) are
+        # source-to-sink walks of the caller's graph and leave exactly the residual the class reports
+        if comp and name == "kFlowDecompCycles" and b.get("solved") and cert.get("expansion") != 0.0:
+            report(ctx, f"{name}: the walks returned on the explicit expansion do not explain the node values (residual "
+                        f"{cert.get('expansion')})", {"class": name, "instance": inst, "expansion": b}, site=f"{name}.certificate")
+        if comp and name != "kFlowDecompCycles":
+            for tag, side in (("node_mode", a), ("expansion", b)):
+                if side.get("solved") and name == "kLeastAbsErrorsCycles" and cert.get(tag) is not None \
+                        and abs(cert[tag] - side["objective"]) > 1e-6:
+                    report(ctx, f"{name}: {tag} reports objective {side['objective']} but its walks leave the absolute "
+                                f"error {cert[tag]} on the caller's graph", {"class": name, "instance": inst, tag: side},
+                           site=f"{name}.certificate")
+        brute = None
+        if name == "kFlowDecompCycles":
+            brute = [[w, q] for w, q in brute_single_walk(cfg, inst["ignore"])]
+            if comp and not a.get("solved") and not brute:
+                report(ctx, f"{name}: node mode is unsolved and the brute force finds no single walk either, but the explicit "
+                            f"expansion is solved", {"class": name, "instance": inst, "expansion": b}, site=f"{name}.certificate")
+        ctx.rep.sample({"cap_witness": name, "node_mode": a, "expansion": b, "independent_residual": cert,
+                        "brute_force_single_walk_decompositions": brute}, limit=12)
+
+
 COVER_LENGTH_WITNESS = {          # FP.Props.C11.exCover / kcover_node_mode_length_regression (defect repaired by 65014a7)
     "class": "kPathCover",
     "graph": {"nodes": ["a", "b", "c"], "edges": [["a", "b"], ["a", "c"], ["c", "b"]], "node_flow": {},
@@ -797,6 +1159,8 @@ def gen_k5(rng, cyclic, maxn=6, perturb=True):
         if srcs and snks and _reach(cfg, srcs, False) == set(cfg["nodes"]) == _reach(cfg, snks, True):
             break
     cfg["edge_flow"], cfg["node_len"], cfg["edge_len"] = [], None, []
+    if cyclic and rng.random() < 0.08:      # original edges that carry an attribute named like the node attribute
+        cfg["edge_flow"] = [[u, v, rng.choice([0, 1, 7])] for u, v in cfg["edges"] if rng.random() < 0.5]
     ns, es = cfg["nodes"], [tuple(e) for e in cfg["edges"]]
     succ = {v: [] for v in ns}; pred = {v: [] for v in ns}
     for u, v in es:
@@ -891,7 +1255,7 @@ def k5_kwargs(cls, inst, node_mode):
     if "k" in ps:
         kw["k"] = inst["k"]
     if "weight_type" in ps:
-        kw["weight_type"] = int
+        kw["weight_type"] = float if inst.get("weight_type") == "float" else int
     kw["elements_to_ignore"] = ign
     if "subpath_constraints" in ps and cons:
         kw["subpath_constraints"] = cons
@@ -956,6 +1320,8 @@ def solve_side(cls, kw):
                     out["routes"] = [list(p) for p in sol["paths"]]
                 elif "walks" in sol:
                     out["routes"] = [list(p) for p in sol["walks"]]
+                if "weights" in sol:
+                    out["weights"] = [float(w) for w in sol["weights"]]
                 if "graph" in sol:
                     g = sol["graph"]
                     out["graph_nodes"] = sorted(map(str, g.nodes()))
@@ -1015,8 +1381,17 @@ def k5_case(ctx, name, inst, suite="K5.node_vs_expansion"):
         return a, b, []
     if complaints:
         sig = "raises " + a["raises"].split(":")[0] if "raises" in a else re.sub(r"[\d.]+|\[.*?\]|'[^']*'", "#", complaints[0])[:60]
-        report(ctx, f"{name} in node mode vs the explicit expansion: " + "; ".join(complaints),
-               {"class": name, "instance": inst, "node_mode": a, "expansion": b}, site=f"{name}.node_mode", sig=sig)
+        payload = {"class": name, "instance": inst, "node_mode": a, "expansion": b}
+        if inst["graph"].get("edge_flow"):
+            # diagnosis: the same node-mode call with the same-named attribute removed from the original edges
+            inst2 = copy.deepcopy(inst); inst2["graph"]["edge_flow"] = []
+            a2 = solve_side(cls, k5_kwargs(cls, inst2, True))
+            if not k5_judge(name, inst2, a2, b):
+                payload["diagnosis"] = CAP_DIAGNOSIS
+                payload["node_mode_without_edge_attribute"] = a2
+                sig = CAP_DIAGNOSIS
+        report(ctx, f"{name} in node mode vs the explicit expansion: " + "; ".join(complaints), payload,
+               site=f"{name}.node_mode", sig=sig)
     return a, b, complaints
 
 
@@ -1077,6 +1452,8 @@ def run(ctx):
     run_k2(ctx, rng, ctx.n(250, 4000))
     cover_length_regression(ctx)
     run_k2m(ctx, rng, ctx.n(120, 1500))
+    run_k2c(ctx, rng, ctx.n(260, 1500))
+    cap_witnesses(ctx)
     run_k5(ctx, rng, ctx.n(20, 100))
     # MinFlowDecomp accepts additional starts / ends in node mode only, so there is no explicit edge-mode counterpart to compare
     # with: the node-mode answer is judged by C03's brute-force minimum over node-weighted paths that may start / end there
@@ -1159,6 +1536,8 @@ def finding_case(ctx, minimal_input):
         k5_case(ctx, minimal_input["class"], minimal_input["instance"], suite="findings")
     elif isinstance(minimal_input, dict) and minimal_input.get("class") in K2M and "graph" in minimal_input:
         k2m_case(ctx, copy.deepcopy(minimal_input))
+    elif isinstance(minimal_input, dict) and minimal_input.get("class") in K2C and "graph" in minimal_input:
+        k2c_case(ctx, copy.deepcopy(minimal_input))
 
 
 def replay(ctx, payload):
@@ -1167,10 +1546,14 @@ def replay(ctx, payload):
         print(k5_case(ctx, inp["class"], inp["instance"], suite="replay"))
     elif "case" in inp and inp["case"].get("class") in K2M:
         k2m_case(ctx, inp["case"])
+    elif "case" in inp and inp["case"].get("class") in K2C:
+        k2c_case(ctx, inp["case"])
     elif "case" in inp:
         k2_case(ctx, inp["case"])
     elif inp.get("class") in K2M and "graph" in inp:
         k2m_case(ctx, inp)
+    elif inp.get("class") in K2C and "graph" in inp:
+        k2c_case(ctx, inp)
     elif "graph" in inp and "k" in inp:
         k2_case(ctx, inp)
     elif "graph" in inp:
